@@ -34,6 +34,7 @@ pub fn run(ctx: &Ctx) {
     for sp in contexts(|m| t.pick(m.min(5), m), false) {
         run.space(&sp, &all, false);
     }
+    run.space(&ws_class(), &all, false);
     // the same metamorphic relation on the buffered reader (option handling that lives in the
     // source: skip_whitespace for trim_text_start, buffer reuse), under three chunkings
     for piece in [1usize, 2, 3] {
